@@ -2,6 +2,7 @@ package main
 
 import (
 	"go/types"
+	"strings"
 
 	"golang.org/x/tools/go/ssa"
 )
@@ -572,10 +573,15 @@ func runC09(p *P, r *R) {
 			n++
 			lenZero, oneSlice := false, false
 			for _, fct := range factsAt(si.Block()) {
-				isLen := func(v ssa.Value) bool { return isLoadOf(v, "linkedBuffer.len") }
+				// both tests must be about the *read* buffer (the one that is about to become the write buffer)
+				ofRecv := func(v ssa.Value) bool {
+					fa, okf := loadOfField(v)
+					return okf && isLoadOf(fa.X, "Stream.recvBuf")
+				}
+				isLen := func(v ssa.Value) bool { return isLoadOf(v, "linkedBuffer.len") && ofRecv(v) }
 				isSz := func(v ssa.Value) bool {
 					c, okc := v.(*ssa.Call)
-					return okc && p.calleeName(&c.Call) == "(*sliceList).size"
+					return okc && p.calleeName(&c.Call) == "(*sliceList).size" && isLoadOf(c.Call.Args[0], "linkedBuffer.sliceList") && ofRecv(c.Call.Args[0])
 				}
 				isK := func(k int64) func(ssa.Value) bool {
 					return func(v ssa.Value) bool { c, okc := constInt(v); return okc && c == k }
@@ -601,7 +607,7 @@ func runC09(p *P, r *R) {
 
 	// ---- R09.10 recycling a chain returns every slice (shared with C02); R09.7 the stream pool closes what it discards
 	// (shared with C15); R09.11 the release role returns every pinned slice (shared with C08)
-	borrow(p, r, "C02", runC02, map[string]string{"R02.3": "R09.10", "R02.5": "R09.10", "R02.6": "R09.10"}, nil)
+	borrow(p, r, "C02", runC02, map[string]string{"R02.3": "R09.10", "R02.5": "R09.10", "R02.6": "R09.10", "R02.10": "R09.10"}, nil)
 	borrow(p, r, "C15", runC15, map[string]string{"R15.1": "R09.7", "R15.2": "R09.7"}, nil)
 	borrow(p, r, "C08", runC08, map[string]string{"R08.4": "R09.11"}, nil)
 
@@ -654,21 +660,49 @@ func runC09(p *P, r *R) {
 			if isLoadOf(ci.(*ssa.Call).Call.Args[0], "linkedBuffer.sliceList") {
 				for _, ref := range *ci.(*ssa.Call).Referrers() {
 					if c, ok := ref.(*ssa.Call); ok && p.calleeName(&c.Call) == "putBackBufferSlice" {
-						nonShm := false // on the branch where the slice is known not to be shared memory there is nothing to recycle
+						// on the branch where *this very slice* is known not to be shared memory there is nothing to recycle:
+						// the flag tested must be the popped slice's own (or that of front() of the same list, which is the
+						// slice popFront() then removes) — the buffer-level linkedBuffer.isFromShm says nothing about one slice
+						popped := ci.(*ssa.Call)
+						nonShm := false
 						for _, fct := range factsAt(c.Block()) {
 							cond, neg := stripNot(fct.Cond)
-							if isLoadOf(cond, "bufferSlice.isFromShm") && fct.Truth == neg {
+							if !isLoadOf(cond, "bufferSlice.isFromShm") || fct.Truth != neg {
+								continue
+							}
+							fa, _ := loadOfField(cond)
+							switch x := fa.X.(type) {
+							case *ssa.Call:
+								if x == popped {
+									nonShm = true
+								}
+								if p.calleeName(&x.Call) == "(*sliceList).front" && sameExpr(x.Call.Args[0], popped.Call.Args[0], 3) {
+									nonShm = true
+								}
+							}
+						}
+						// or the slice went through the recycler (which tells shm from non-shm itself) first
+						for _, ref2 := range *popped.Referrers() {
+							if c2, ok2 := ref2.(*ssa.Call); ok2 && (p.calleeName(&c2.Call) == "(*bufferManager).recycleBuffer" || p.calleeName(&c2.Call) == "(*bufferManager).recycleBuffers") && instrDominates(c2, c) {
 								nonShm = true
 							}
 						}
 						if !nonShm {
 							pops = true
+							// a disposal that *is* decided by an is-shared-memory flag, but not by the slice's own, is plainly wrong
+							for _, fct := range factsAt(c.Block()) {
+								cond, _ := stripNot(fct.Cond)
+								if fa, okf := loadOfField(cond); okf && strings.HasSuffix(fieldKey(fa), ".isFromShm") {
+									r.fail("R09.13", p.fname(f)+": whether a popped slice is recycled or merely returned to the object pool is decided by that slice's own isFromShm flag", p.ipos(c),
+										"decided by %s instead: a buffer that mixes shared-memory and heap slices (allocation fell back) drops its shared-memory slices", fieldKey(fa))
+								}
+							}
 						}
 					}
 				}
 			}
 		}
-		if pops && len(findInstrs(f, p.mCall("(*bufferManager).recycleBuffer", "(*bufferManager).recycleBuffers"))) == 0 {
+		if pops {
 			forgetters = append(forgetters, f)
 		}
 	}
